@@ -1010,7 +1010,7 @@ func ruleAddrListener(c *Ctx, rule string) {
 			if !ok || len(ret.Results) != 2 || !isNilConst(ex.ResolveDeep(st, ret.Results[1])) {
 				return
 			}
-			zoneEmpty, _ := histEq(st, regexp.MustCompile(`^\$0\.Zone$`), `""`)
+			zoneEmpty, _ := histEq(st, regexp.MustCompile(`^len\(\$0\.Zone\)$`), "0")
 			switch zoneEmpty {
 			case 0:
 				if !st.seen["iface"] {
